@@ -246,3 +246,66 @@ Example C09_dag_nonvacuous :
 Proof.
   split; [intros a [<-|[<-|[]]]; cbn; lia|]. split; [vm_compute; reflexivity|]. split; vm_compute; reflexivity.
 Qed.
+
+(* ------------------------------------------------------------------------------------------------------------
+   SEVERAL INSTANCES OF ONE CLASS ALIVE TOGETHER, each rewound (reset / all / len) at different moments, and their copies.
+   Model Pat/Instances.v: a world = the list of objects created so far; operations  WNew program | WCopy j | WOp i o  with
+   o one of next / nextn(n) / reset / all(m) / len on object i; generic over the kind of object - anything whose
+   constructor, next(), reset() and copy() are functions of the program text / the object alone.  Lemmas
+   Pat/InstancesProofs.v.  PLSystem (string rewriting + the bracket stack machine; Pat/LSystem.v, Pat/LSystemProofs.v) is
+   such an object: position, state and the STACK of saved states belong to the object. *)
+From Isobar Require Import Pat.Instances Pat.InstancesProofs Pat.LSystem Pat.LSystemProofs.
+
+(* whatever else is constructed, copied, advanced or rewound in the world, an object observes what it observes ALONE under
+   the operations applied to it; an operation on one object leaves every other object as it is *)
+Theorem C09_instances_independent : forall Prog Obj build onext oreset ocopy LMAX (ops : list (wop Prog)) (w : list Obj) i x,
+  nth_error w i = Some x ->
+  outs_of i (wrun Prog Obj build onext oreset ocopy LMAX w ops) = Instances.alone Obj onext oreset LMAX x (wproj Prog i ops).
+Proof. exact instance_isolation. Qed.
+Theorem C09_instances_frame : forall Prog Obj build onext oreset ocopy LMAX (w : list Obj) i o k, i <> k ->
+  nth_error (fst (wstep Prog Obj build onext oreset ocopy LMAX w (WOp i o))) k = nth_error w k.
+Proof. exact instance_frame. Qed.
+
+(* a copy starts as the copy of the object it is taken from and then observes what that copy observes alone - whatever is
+   done to the original, before or after, rewinds included; two instances built from the same program text likewise *)
+Theorem C09_instances_copy : forall Prog Obj build onext oreset ocopy LMAX (ops : list (wop Prog)) (w : list Obj) j x,
+  nth_error w j = Some x ->
+  outs_of (List.length w) (wrun Prog Obj build onext oreset ocopy LMAX w (WCopy j :: ops)) =
+  Instances.alone Obj onext oreset LMAX (ocopy x) (wproj Prog (List.length w) ops).
+Proof. exact instance_copy. Qed.
+Theorem C09_instances_new : forall Prog Obj build onext oreset ocopy LMAX (ops : list (wop Prog)) (w : list Obj) p x,
+  build p = Some x ->
+  outs_of (List.length w) (wrun Prog Obj build onext oreset ocopy LMAX w (WNew p :: ops)) =
+  Instances.alone Obj onext oreset LMAX x (wproj Prog (List.length w) ops).
+Proof. exact instance_new. Qed.
+Print Assumptions C09_instances_independent.
+Print Assumptions C09_instances_copy.
+
+(* PLSystem: for the L-system machine the above reads - any number of PLSystem patterns with equal or different (rule,
+   depth), copies taken before or after rewinds, next() interleaved while their bracket spans overlap: each observes what
+   it observes alone (pl_copy is the identity: a deep copy of an object that owns all of its state) *)
+Theorem C09_lsystem_instances_independent : forall LMAX (ops : list (wop (list tok * nat * bool))) (w : list plsys) i x,
+  nth_error w i = Some x ->
+  outs_of i (wrun _ plsys pl_build pl_next pl_reset pl_copy LMAX w ops) = Instances.alone plsys pl_next pl_reset LMAX x (wproj _ i ops).
+Proof. exact (instance_isolation _ plsys pl_build pl_next pl_reset pl_copy). Qed.
+
+(* and its StopIteration is sticky: once the expanded string has been read, next() raises StopIteration for ever *)
+Theorem C09_lsystem_sticky : forall x x', pl_next x = (Val.Stop, x') ->
+  pl_next x' = (Val.Stop, x') /\ forall n, Instances.alone plsys pl_next pl_reset 0 x' (repeat ONext n) = repeat Val.Stop n.
+Proof. intros x x' H. split; [exact (pl_sticky x x' H)|exact (pl_dead x x' H)]. Qed.
+Print Assumptions C09_lsystem_instances_independent.
+Print Assumptions C09_lsystem_sticky.
+
+(* non-vacuity: two PLSystem("N[-N++N]-N", 2, False) built from equal arguments and a copy of the first, rewound at different
+   moments (all(3) on the second, reset() on the first) and advanced alternately inside their bracket spans: each follows the
+   sequence 0 -1 1 -1 -2 -3 -1 -3 -1 -2 0 -2 -2 -3 -1 -3 from its own position *)
+Example C09_lsystem_nonvacuous :
+  let rule := [TN; TOpen; TMinus; TN; TPlus; TPlus; TN; TClose; TMinus; TN] in
+  let P : list tok * nat * bool := (rule, 2%nat, false) in
+  wtrace _ plsys pl_build pl_next pl_reset pl_copy 1000 []
+    [WNew P; WNew P; WOp 0 ONext; WOp 0 ONext; WCopy 0; WOp 1 (OAll 3); WOp 0 OReset; WOp 0 ONext; WOp 1 ONext; WOp 0 ONext;
+     WOp 1 ONext; WOp 2 ONext; WOp 0 ONext; WOp 1 ONext; WOp 2 ONext; WOp 0 (ONextN 3); WOp 2 (ONextN 3); WOp 1 OLen]%nat =
+  [Yield VNone; Yield VNone; Yield (VInt 0); Yield (VInt (-1)); Yield VNone; Yield (VList [VInt 0; VInt (-1); VInt 1]);
+   Yield VNone; Yield (VInt 0); Yield (VInt 0); Yield (VInt (-1)); Yield (VInt (-1)); Yield (VInt 1); Yield (VInt 1); Yield (VInt 1);
+   Yield (VInt (-1)); Yield (VList [VInt (-1); VInt (-2); VInt (-3)]); Yield (VList [VInt (-2); VInt (-3); VInt (-1)]); Yield (VInt 13)].
+Proof. vm_compute. reflexivity. Qed.
